@@ -156,6 +156,18 @@ class MachineInterp(flow.Interp):
                 s2.obs['gcur'] = s2.refs.get(loc + ('_currentTransition',))
                 s2.obs['gpend'] = s2.refs.get(loc + ('_pendingTransition',))
                 s2.obs['rounds'] = min(2, s2.obs.get('rounds', 0) + 1)
+                gc = s2.obs['gcur']
+                if gc is not None and s2.cconst(s2.get(gc + ('destination',))) == 255:
+                    # nothing accepted yet in this processing step: the "current" transition shown to guards must be a pristine empty
+                    # transition -- no origin and no payload left over from an earlier step
+                    ps = gc + ('payloadSet',)
+                    stale = []
+                    if ps in s2.cls and s2.const_of(ps) != 0:
+                        stale.append('payload')
+                    if s2.const_of(gc + ('origin',)) != 255:
+                        stale.append('origin')
+                    if stale:
+                        self.viol('C07.c', 'the (empty) current transition shown to guards can expose a stale %s from an earlier processing step' % ' and '.join(stale), e, s2)
                 gp = s2.obs['gpend']
                 if gp is not None and s2.cconst(s2.get(gp + ('destination',))) != 255:
                     if s2.obs.get(('copy', gp)) != REQUEST:
